@@ -521,13 +521,31 @@ class CustomSD(BaseCorrelations):
             integral = integral.real
         return integral
 
-    @lru_cache(maxsize=2 ** 10, typed=False)
+    def _parameters_key(self) -> tuple:
+        """The current values of all parameters that determine the
+        correlations (key for cached results). """
+        return (id(self.j_function), self.cutoff, self.cutoff_type,
+                self.temperature)
+
     def eta_function(
             self,
             tau: ArrayLike,
             epsrel: Optional[float] = INTEGRATE_EPSREL,
             subdiv_limit: Optional[int] = SUBDIV_LIMIT,
             matsubara: Optional[bool] = False) -> ArrayLike:
+        """Twice integrated auto-correlation function (see
+        `_eta_function`), cached for the current parameter values. """
+        return self._eta_function(
+            tau, epsrel, subdiv_limit, matsubara, self._parameters_key())
+
+    @lru_cache(maxsize=2 ** 10, typed=False)
+    def _eta_function(
+            self,
+            tau: ArrayLike,
+            epsrel: Optional[float] = INTEGRATE_EPSREL,
+            subdiv_limit: Optional[int] = SUBDIV_LIMIT,
+            matsubara: Optional[bool] = False,
+            parameters_key: Optional[tuple] = None) -> ArrayLike:
         r"""
         Auto-correlation function associated to the spectral density at the
         given temperature :math:`T`
@@ -757,6 +775,12 @@ class PowerLawSD(CustomSD):
                          temperature=temperature,
                          name=name,
                          description=description)
+
+    def _parameters_key(self) -> tuple:
+        """The current values of all parameters that determine the
+        correlations (key for cached results). """
+        return (self.alpha, self.zeta, self.cutoff, self.cutoff_type,
+                self.temperature)
 
     def _spectral_density(self, omega: ArrayLike) -> ArrayLike:
         """The spectral density for the current parameters. """
